@@ -1,10 +1,39 @@
 import os
 from engine import Query
 META = {
- 'functions': [],
- 'bounds': '',
- 'outside': '',
- 'assumptions': [],
+ 'functions': [
+   'BigInt<W,Bits>: Add/Subtract(number,index), operator += -= (word and wider operand), Multiply / *=, Divide / /= (+remainder), '
+   'ShiftLeft / <<=, ShiftRight / >>=, operator |= &= (word and wider), FindFirstBit, FindLastBit, the 12 comparisons with a word, '
+   'IsZero/NotZero/IsBig/Number, explicit operator N (narrowing), BigInt(N), operator=(N), Clear, copy/move construction and '
+   'assignment, private copy() and doOperation<> (BigInt.hpp:58-609)',
+   'DoubleSize<W,8|16|32>::Multiply/Divide (BigInt.hpp:611-681), DoubleSize<u64,64>::Multiply/Divide (BigInt.hpp:683-789)',
+   'Platform::FindFirstBit / FindLastBit (Platform.hpp:316-375, the non-MSVC 64-bit branch)'],
+ 'bounds': 'ONE operation applied to an ARBITRARY object state satisfying the representation invariant Inv (index <= MaxIndex, words above '
+           'index zero, word[index] != 0 unless index == 0): all words, the index and every argument symbolic (shift amounts: all 2^32 '
+           'values). Inv is re-established by every operation, so the claims extend to operation sequences of any length by induction. '
+           'Instantiations BigInt<u8,32>, <u16,64>, <u32,96>, <u64,128>, <u64,192> (quick) plus <u32,128>, <u64,256> (thorough). Oracle: the '
+           'value as native u64/unsigned __int128 when it has <= 128 bits, word-wise carry-chain reference otherwise (thorough: both on '
+           'BigInt<u8,32> and <u64,128>). Multiply and Divide are proved OVER the contract of the double-word helper (assume/guarantee, see '
+           'assumptions); the helper is proved separately: DoubleSize<W,8|16|32> all operands, DoubleSize<u64,64>::Multiply all operands, '
+           'DoubleSize<u64,64>::Divide all dividends for each of the 29 divisors the library uses (10^19, 5^0..5^27). End-to-end '
+           'cross-checks with the real helper against the native oracle: Multiply on BigInt<u8,32> (+<u16,64> thorough), Divide on '
+           'BigInt<u8,32> values of one (and, thorough, two) words.',
+ 'outside': 'DoubleSize<u64,64>::Divide for divisors other than the 29 listed (proof out of reach of every back end; searched for '
+            'counterexamples only, which yields finding C19-div-odd), hence BigInt<u64,*>::Divide by such divisors; FindFirstBit/FindLastBit '
+            'of the value zero (no bit index exists; ctz/clz of 0 is undefined); the raw accessors SetIndex()/Storage() (they bypass '
+            'the invariant); signed operand types of the templated operators; widths other than the seven instantiations; the MSVC '
+            'and 32-bit branches of the Platform bit scans; operations whose mathematical result does not fit the declared width.',
+ 'assumptions': [
+   'assume/guarantee split for Multiply and Divide: BigInt is checked with DoubleSize<W,bits(W)> replaced (explicit specialisation in the '
+   'harness) by a stand-in that ASSERTS the callee precondition at every call and returns an arbitrary result constrained only by '
+   'consequences of the exact contract (product: p==0 <=> a==0 or k==0, p <= (2^w-1)^2; division: r < d, high != 0 => q != 0); what is '
+   'proved is: result words = sum_i P(word_i,k)*2^(w*i) for Multiply, and for Divide the school long-division data flow (one helper '
+   'call per word below the top one, each fed the previous remainder and the original word; result words = the helper quotients; '
+   'returned remainder = the last helper remainder; top word = native / and %). Exactness of the result then follows from the '
+   'separately proved helper contract and the textbook long-division / distributivity identities, which are not re-proved by the solver',
+   'the precondition assertion of the Divide stand-in is discharged in the div_mod queries (SAT) and assumed in the div_top queries (z3)',
+   'the cvc5int back end needs the PATH shim q2c/bin/cvc5 (bit-vectors as integers); see the report for the shim used',
+ ],
 }
 RT_SUPPLY_MISSING = True   # q2c/vf_rt.h lacks vf_cttz8/16 and vf_fshl/fshr<w>: the harness supplies them; set False once the runtime has them
 # Testing aid: with C19_KF_MANUAL=1 in the environment the KF_EXCL_* / KF_ONLY_* defines are passed directly (as if every C19 finding
@@ -65,11 +94,19 @@ def queries(tier):
         qs.append(bq(i, 'h_mul', defs={'DS_CONTRACT': 1}, kf_excl=['C19-mul-zero']))
         qs.append(bq(i, 'h_div_mod', defs={'DS_CONTRACT': 1}))
         qs.append(bq(i, 'h_div_top', defs={'DS_CONTRACT': 1, 'DS_PRE_ASSUMED': 1}, backend='z3'))
+    if not quick:   # the word-wise reference itself, on instantiations where the native oracle is also used
+        for i in ('u8x32', 'u64x128'):
+            for e in PLAIN:
+                qs.append(bq(i, e, name='wordwise/' + e[2:], defs={'WORDWISE': 1}))
+            qs.append(bq(i, 'h_shl', name='wordwise/shl', defs={'WORDWISE': 1}, kf_excl=['C19-shl-zero']))
+            qs.append(bq(i, 'h_ffb', name='wordwise/ffb', defs={'WORDWISE': 1}, kf_excl=['C19-ffb']))
+            qs.append(bq(i, 'h_mul', name='wordwise/mul', defs={'WORDWISE': 1, 'DS_CONTRACT': 1}, kf_excl=['C19-mul-zero']))
     # cross-check of the assume/guarantee split: the REAL double-word helper, exact products, end to end against the native oracle
     # (only small words are within reach of a SAT solver: two copies of a multiplier/divider have to be shown equal)
-    for i in (['u8x32'] if quick else ['u8x32', 'u16x64']):
+    for i in (['u8x32'] if quick else ['u8x32', 'u16x64', 'u32x96']):
         for x in range(nwords(i)):
-            qs.append(bq(i, 'h_mul', name='direct/mul/idx%d' % x, defs={'IDX': x}, backend='kissat', kf_excl=['C19-mul-zero']))
+            qs.append(bq(i, 'h_mul', name='direct/mul/idx%d' % x, defs={'IDX': x}, backend='kissat', kf_excl=['C19-mul-zero'],
+                         timeout=300 if INST[i][1] < 32 else 900))
     for x in ((0,) if quick else (0, 1)):
         qs.append(bq('u8x32', 'h_div', name='direct/div/idx%d' % x, defs={'IDX': x, 'DIV_BY_MULT': 1}, backend='kissat'))
     # one counterexample query per known finding
